@@ -217,6 +217,10 @@ def run_shard(job, seed, shard, workdir):
                  "params": job.params, "count": job.count}
         res["crashes"].append(crash)
         restarts += 1
+        # a handful of attributed deaths is enough evidence where a death is the property's violation;
+        # elsewhere keep going (skipped cases) but not forever
+        if job.crash_is_violation and restarts >= 3:
+            return res
         if idx is None or restarts > 50:
             crash["unattributed"] = True
             return res
